@@ -95,9 +95,10 @@ func init() {
 
 // c25Model holds the resolved anchors of the dedupe buffer.
 type c25Model struct {
-	c *Ctx
-	p *Prog
-	L *c25Locks
+	c  *Ctx
+	p  *Prog
+	L  *c25Locks
+	ip *c26IP
 
 	live, unseen, pmap, plist *types.Var
 	kvValue                   *types.Var // model.KVPair.Value
@@ -114,7 +115,7 @@ func runC25(c *Ctx) {
 	p := c.Load(c25Pkg)
 	m := &c25Model{c: c, p: p}
 
-	c.Rule("C25.lock", "E-LOCK", "every access to a guarded DedupeBuffer field (and every Cond.Wait) happens with d.lock held on every path; one obligation per function and field", 26)
+	c.Rule("C25.lock", "E-LOCK", "every access to a guarded DedupeBuffer field (and every Cond.Wait) happens with d.lock held on every path; one obligation per function and field (floor: one per guarded field, each of which must have an access point)", 8)
 	c.Rule("C25.resync", "E-FLOW/E-PAIR/E-GUARD/E-ORDER", "restart handler snapshots a copy of the live set and empties the queue; OnUpdates marks keys seen; the finisher runs under InSync&&notSeen!=nil before the status is queued and synthesizes deletions for the not-seen set", 10)
 	c.Rule("C25.live", "E-GUARD/E-PAIR", "live-set bookkeeping at dequeue follows Value nil-ness; UpdateType recalculated from live-set membership; pending entries dropped only for deletions of non-live keys", 10)
 
@@ -122,14 +123,27 @@ func runC25(c *Ctx) {
 
 	c.Rule("C25.sink", "E-FLOW", "a slice handed to SyncerCallbacks.OnUpdates (the sink may keep it) is never written afterwards and its elements are not handed over twice: later appends go to nil, a fresh slice or s[len(s):]", 3)
 
-	m.lockRule()
-	m.resolve()
-	m.resyncRules()
-	m.liveRules()
-	nSink := c25SinkRule(c, p, c25Pkg)
-	nSink += c25RestartRules(c)
+	// Every family resolves what it needs and runs on its own: an anchor lost by one family
+	// (exit 2) never silences the others.  The combined loss is raised at the end.
+	var lost []string
+	c23Guarded(&lost, m.lockRule)
+	if m.L != nil {
+		c23Guarded(&lost, m.resolve)
+	}
+	if m.ip != nil {
+		for _, fam := range []func(){m.resyncSnapshot, m.resyncResetQueue, m.resyncMarkSeen, m.resyncFinish, m.resyncSynth,
+			m.liveGuards, m.liveDequeueAndDrop, m.liveType, m.liveTypeRecalc} {
+			c23Guarded(&lost, fam)
+		}
+	}
+	nSink := 0
+	c23Guarded(&lost, func() { nSink += c25SinkRule(c, p, c25Pkg) })
+	c23Guarded(&lost, func() { nSink += c25RestartRules(c) })
 	if nSink < 3 {
-		c.Lost("expected >= 3 SyncerCallbacks.OnUpdates hand-offs in %s and %s, found %d", c25Pkg, c25ClientPkg, nSink)
+		lost = append(lost, fmt.Sprintf("expected >= 3 SyncerCallbacks.OnUpdates hand-offs in %s and %s, found %d", c25Pkg, c25ClientPkg, nSink))
+	}
+	if len(lost) > 0 {
+		c.Lost("%s", strings.Join(lost, " | "))
 	}
 }
 
@@ -238,6 +252,24 @@ func (m *c25Model) lockRule() {
 			g.bad = append(g.bad, a)
 		}
 	}
+	// Coverage: every guarded field of the struct has at least one access point.  (The number
+	// of function × field groups changes when helpers are extracted or inlined; the set of
+	// guarded fields does not, so the floor of the family is one instance per guarded field.)
+	covered := map[string]bool{}
+	for _, a := range L.Accesses {
+		covered[a.Field] = true
+	}
+	if st, ok := L.named.Underlying().(*types.Struct); ok {
+		var missing []string
+		for i := 0; i < st.NumFields(); i++ {
+			if n := st.Field(i).Name(); !L.spec.Unguarded[n] && !covered[n] {
+				missing = append(missing, n)
+			}
+		}
+		if len(missing) > 0 {
+			c.Lost("no access point found for guarded field(s) %v of %s (lockset engine blind?)", missing, c25Type)
+		}
+	}
 	for _, k := range sortedKeys(groups) {
 		g := groups[k]
 		if len(g.bad) == 0 {
@@ -301,63 +333,102 @@ func (m *c25Model) resolve() {
 		c.Lost("model.KVPair.Value / api.Update.UpdateType / api.InSync / api.UpdateTypeKV*")
 	}
 	m.all = m.L.funcs
+	m.ip = c26NewIP(m.all)
 
-	uniq := func(what string, pred func(f *ssa.Function) bool) *ssa.Function {
-		var out []*ssa.Function
+}
+
+// uniq: the one top-level function of the package satisfying pred.
+func (m *c25Model) uniq(what string, pred func(f *ssa.Function) bool) *ssa.Function {
+	var out []*ssa.Function
+	seen := map[*ssa.Function]bool{}
+	for _, f := range m.all {
+		if pred(f) && !seen[topFn(f)] {
+			seen[topFn(f)] = true
+			out = append(out, topFn(f))
+		}
+	}
+	if len(out) != 1 {
+		var ns []string
+		for _, f := range out {
+			ns = append(ns, fnName(f))
+		}
+		m.c.Lost("%s: expected exactly one function, found %v", what, ns)
+	}
+	return out[0]
+}
+
+// The roles are located by what the functions do and resolved on first use, so a
+// family only depends on the anchors it really needs.
+func (m *c25Model) queueFn() *ssa.Function {
+	if m.fnQueue == nil {
+		m.fnQueue = m.uniq("enqueue function (inserts into "+m.pmap.Name()+")", func(f *ssa.Function) bool {
+			for _, mu := range mapUpdatesOfField(f, false, c25Type, m.pmap.Name()) {
+				if fieldVar(mu.Map) == m.pmap {
+					return true
+				}
+			}
+			return false
+		})
+	}
+	return m.fnQueue
+}
+
+func (m *c25Model) dequeueFn() *ssa.Function {
+	if m.fnDequeue == nil {
+		m.fnDequeue = m.uniq("dequeue function (calls "+m.plist.Name()+".Front)", func(f *ssa.Function) bool {
+			return len(m.callsOnField(f, m.plist, "Front")) > 0
+		})
+	}
+	return m.fnDequeue
+}
+
+func (m *c25Model) restartFns() []*ssa.Function {
+	if m.fnRestart == nil {
 		seen := map[*ssa.Function]bool{}
 		for _, f := range m.all {
-			if pred(f) && !seen[topFn(f)] {
-				seen[topFn(f)] = true
-				out = append(out, topFn(f))
+			for _, s := range storesToField(f, false, c25Type, m.unseen.Name()) {
+				if !isNilConst(s.Val) && !seen[topFn(f)] {
+					seen[topFn(f)] = true
+					m.fnRestart = append(m.fnRestart, topFn(f))
+				}
 			}
 		}
-		if len(out) != 1 {
-			var ns []string
-			for _, f := range out {
-				ns = append(ns, fnName(f))
-			}
-			c.Lost("%s: expected exactly one function, found %v", what, ns)
-		}
-		return out[0]
-	}
-	m.fnQueue = uniq("enqueue function (inserts into "+m.pmap.Name()+")", func(f *ssa.Function) bool {
-		for _, mu := range mapUpdatesOfField(f, false, c25Type, m.pmap.Name()) {
-			if fieldVar(mu.Map) == m.pmap {
-				return true
-			}
-		}
-		return false
-	})
-	m.fnDequeue = uniq("dequeue function (calls "+m.plist.Name()+".Front)", func(f *ssa.Function) bool {
-		return len(m.callsOnField(f, m.plist, "Front")) > 0
-	})
-	restartSeen := map[*ssa.Function]bool{}
-	for _, f := range m.all {
-		for _, s := range storesToField(f, false, c25Type, m.unseen.Name()) {
-			if !isNilConst(s.Val) && !restartSeen[topFn(f)] {
-				restartSeen[topFn(f)] = true
-				m.fnRestart = append(m.fnRestart, topFn(f))
-			}
+		if len(m.fnRestart) == 0 {
+			m.c.Lost("no function starts a resync (non-nil store to %s)", m.unseen.Name())
 		}
 	}
-	if len(m.fnRestart) == 0 {
-		c.Lost("no function starts a resync (non-nil store to %s)", m.unseen.Name())
-	}
-	m.fnFinish = uniq("resync finisher (stores nil to "+m.unseen.Name()+")", func(f *ssa.Function) bool {
-		if restartSeen[topFn(f)] {
+	return m.fnRestart
+}
+
+func (m *c25Model) finishFn() *ssa.Function {
+	if m.fnFinish == nil {
+		restart := map[*ssa.Function]bool{}
+		for _, f := range m.restartFns() {
+			restart[f] = true
+		}
+		m.fnFinish = m.uniq("resync finisher (stores nil to "+m.unseen.Name()+")", func(f *ssa.Function) bool {
+			if restart[topFn(f)] {
+				return false
+			}
+			for _, s := range storesToField(f, false, c25Type, m.unseen.Name()) {
+				if isNilConst(s.Val) {
+					return true
+				}
+			}
 			return false
-		}
-		for _, s := range storesToField(f, false, c25Type, m.unseen.Name()) {
-			if isNilConst(s.Val) {
-				return true
-			}
-		}
-		return false
-	})
-	m.fnOnUpdate = p.Func(c25Pkg, c25Type+".OnUpdates")
-	if m.fnOnUpdate == nil {
-		c.Lost("%s.OnUpdates (api.SyncerCallbacks)", c25Type)
+		})
 	}
+	return m.fnFinish
+}
+
+func (m *c25Model) onUpdateFn() *ssa.Function {
+	if m.fnOnUpdate == nil {
+		m.fnOnUpdate = m.p.Func(c25Pkg, c25Type+".OnUpdates")
+		if m.fnOnUpdate == nil {
+			m.c.Lost("%s.OnUpdates (api.SyncerCallbacks)", c25Type)
+		}
+	}
+	return m.fnOnUpdate
 }
 
 func (m *c25Model) callsOnField(f *ssa.Function, fv *types.Var, name string) []CallSite {
@@ -403,7 +474,7 @@ func (m *c25Model) isStatusParam(v ssa.Value) bool {
 
 // -------------------------------------------------------------- C25.resync --
 
-func (m *c25Model) resyncRules() {
+func (m *c25Model) resyncSnapshot() {
 	c, p := m.c, m.p
 
 	// (a) the not-seen set is only ever nil or a Copy() of the live set
@@ -430,8 +501,12 @@ func (m *c25Model) resyncRules() {
 		c.Lost("no non-nil store to %s", m.unseen.Name())
 	}
 
+}
+
+func (m *c25Model) resyncResetQueue() {
+	c, p := m.c, m.p
 	// (b) whoever starts a resync empties both queue structures before returning
-	for _, f := range m.fnRestart {
+	for _, f := range m.restartFns() {
 		rets := c25Returns(f)
 		var clearsMap, clearsList []ssa.Instruction
 		allInstrs(f, false, func(_ *ssa.Function, in ssa.Instruction) {
@@ -477,12 +552,16 @@ func (m *c25Model) resyncRules() {
 			fnName(f)+" starts a resync but does not reset "+m.plist.Name()+" on every returning path (updates from the dead connection are still delivered)")
 	}
 
+}
+
+func (m *c25Model) resyncMarkSeen() {
+	c, p := m.c, m.p
 	// (c) OnUpdates marks every received key as seen before queueing it
 	nQ := 0
-	for _, f := range withClosures([]*ssa.Function{m.fnOnUpdate}) {
-		for _, call := range m.callsTo(f, m.fnQueue) {
+	for _, f := range withClosures([]*ssa.Function{m.onUpdateFn()}) {
+		for _, call := range m.callsTo(f, m.queueFn()) {
 			nQ++
-			key := "C25.resync/mark-seen/" + fnName(m.fnOnUpdate)
+			key := "C25.resync/mark-seen/" + fnName(m.onUpdateFn())
 			site := p.Pos(call.Pos())
 			args := call.Common().Args
 			if len(args) < 2 {
@@ -513,7 +592,7 @@ func (m *c25Model) resyncRules() {
 						return true
 					}
 					// an extracted helper that discards its key parameter on every path
-					if sf := calleeFn(ci.Common()); sf != nil && sf != m.fnQueue && m.L.inPkg[sf] {
+					if sf := calleeFn(ci.Common()); sf != nil && sf != m.queueFn() && m.L.inPkg[sf] {
 						for i, a := range ci.Call.Args {
 							if same(a) && m.discardsParam(sf, i) {
 								return true
@@ -529,13 +608,17 @@ func (m *c25Model) resyncRules() {
 		}
 	}
 	if nQ == 0 {
-		c.Lost("%s does not call %s", fnName(m.fnOnUpdate), fnName(m.fnQueue))
+		c.Lost("%s does not call %s", fnName(m.onUpdateFn()), fnName(m.queueFn()))
 	}
 
+}
+
+func (m *c25Model) resyncFinish() {
+	c, p := m.c, m.p
 	// (d) the finisher runs only under status==InSync && notSeen!=nil, before the status is queued
 	nCalls := 0
 	for _, f := range m.all {
-		calls := m.callsTo(f, m.fnFinish)
+		calls := m.callsTo(f, m.finishFn())
 		if len(calls) == 0 {
 			continue
 		}
@@ -546,11 +629,11 @@ func (m *c25Model) resyncRules() {
 			site := p.Pos(call.Pos())
 			c.Check(guardedCut(call, insync), "C25.resync/finish-guard/"+fnName(f)+"/insync", site,
 				"finisher called only under status == api.InSync",
-				fnName(m.fnFinish)+" can run for a status other than InSync: keys not yet re-sent would be deleted mid-resync")
+				fnName(m.finishFn())+" can run for a status other than InSync: keys not yet re-sent would be deleted mid-resync")
 			c.Check(guardedCut(call, c25NilCond(false, func(v ssa.Value) bool { return c25FieldLoad(v, m.unseen) })),
 				"C25.resync/finish-guard/"+fnName(f)+"/resyncing", site,
 				"finisher called only while a resync is in progress ("+m.unseen.Name()+" != nil)",
-				fnName(m.fnFinish)+" can run with "+m.unseen.Name()+" == nil")
+				fnName(m.finishFn())+" can run with "+m.unseen.Name()+" == nil")
 		}
 		// enqueue sites of the status in f
 		var enq []ssa.Instruction
@@ -588,7 +671,7 @@ func (m *c25Model) resyncRules() {
 		}
 		isFinishCall := func(in ssa.Instruction) bool {
 			ci, ok := in.(*ssa.Call) // a deferred call does not run here
-			return ok && calleeFn(ci.Common()) == m.fnFinish
+			return ok && calleeFn(ci.Common()) == m.finishFn()
 		}
 		for i, e := range enq {
 			kind := "store"
@@ -602,25 +685,29 @@ func (m *c25Model) resyncRules() {
 			late := c25Reach(f, e, isFinishCall, nil, nil)
 			switch {
 			case early != nil:
-				c.Violate(key, p.Pos(e.Pos()), "with status==InSync during a resync the status can be queued at %s before %s has run: downstream is told in-sync before the synthesized deletions", p.Pos(e.Pos()), fnName(m.fnFinish))
+				c.Violate(key, p.Pos(e.Pos()), "with status==InSync during a resync the status can be queued at %s before %s has run: downstream is told in-sync before the synthesized deletions", p.Pos(e.Pos()), fnName(m.finishFn()))
 			case late != nil:
-				c.Violate(key, p.Pos(e.Pos()), "%s can run after the status was queued at %s", fnName(m.fnFinish), p.Pos(e.Pos()))
+				c.Violate(key, p.Pos(e.Pos()), "%s can run after the status was queued at %s", fnName(m.finishFn()), p.Pos(e.Pos()))
 			default:
-				c.Ok(key, p.Pos(e.Pos()), "status queued only after %s ran (or status!=InSync, or no resync)", fnName(m.fnFinish))
+				c.Ok(key, p.Pos(e.Pos()), "status queued only after %s ran (or status!=InSync, or no resync)", fnName(m.finishFn()))
 			}
 		}
 	}
 	if nCalls == 0 {
-		c.Lost("%s is never called", fnName(m.fnFinish))
+		c.Lost("%s is never called", fnName(m.finishFn()))
 	}
 
+}
+
+func (m *c25Model) resyncSynth() {
+	c, p := m.c, m.p
 	// (e) the finisher synthesizes deletions for exactly the not-seen keys
 	nSynth := 0
-	for _, f := range withClosures([]*ssa.Function{m.fnFinish}) {
-		for _, call := range m.callsTo(f, m.fnQueue) {
+	for _, f := range withClosures([]*ssa.Function{m.finishFn()}) {
+		for _, call := range m.callsTo(f, m.queueFn()) {
 			nSynth++
 			site := p.Pos(call.Pos())
-			base := "C25.resync/synth-delete/" + fnName(m.fnFinish)
+			base := "C25.resync/synth-delete/" + fnName(m.finishFn())
 			rf, rs := p.rangedField(call.Pos())
 			rangedOK := rf == m.unseen
 			keyIsRangeVar := false
@@ -639,7 +726,7 @@ func (m *c25Model) resyncRules() {
 			}
 			c.Check(rangedOK && keyIsRangeVar, base+"/range", site,
 				"deletions are queued for each key ranged from "+m.unseen.Name(),
-				fmt.Sprintf("%s queues updates while ranging over %s (key is range variable: %v), not over %s", fnName(m.fnFinish), what, keyIsRangeVar, m.unseen.Name()))
+				fmt.Sprintf("%s queues updates while ranging over %s (key is range variable: %v), not over %s", fnName(m.finishFn()), what, keyIsRangeVar, m.unseen.Name()))
 			if len(call.Common().Args) < 3 {
 				c.Undecided(base+"/nil-value", site, "enqueue call without update argument")
 				continue
@@ -653,7 +740,7 @@ func (m *c25Model) resyncRules() {
 		}
 	}
 	if nSynth == 0 {
-		c.Lost("%s does not call %s", fnName(m.fnFinish), fnName(m.fnQueue))
+		c.Lost("%s does not call %s", fnName(m.finishFn()), fnName(m.queueFn()))
 	}
 }
 
@@ -735,27 +822,39 @@ func (m *c25Model) updateValueIsNil(f *ssa.Function, arg ssa.Value) (isNil, deci
 
 // ---------------------------------------------------------------- C25.live --
 
-func (m *c25Model) liveRules() {
+func (m *c25Model) liveGuards() {
 	c, p := m.c, m.p
 
-	// (a) Add under Value != nil, Discard under Value == nil, of the same element
+	// (a) Add under Value != nil, Discard under Value == nil, of the same element.  The test may
+	// sit in the function that updates the live set or — when that function is a helper — at every
+	// one of its call sites; the element is followed through the parameter it was passed as.
 	nAdd, nDisc := 0, 0
+	elemNil := func(wantNil bool) func(c25Key) EdgePred {
+		return func(k c25Key) EdgePred { return m.valueNil(wantNil, k.root) }
+	}
 	for _, f := range m.all {
 		for _, cs := range m.callsOnField(f, m.live, "Add") {
 			nAdd++
-			root := c25CanonRoot(cs.Args()[1])
-			c.Check(guardedCut(cs.Instr, m.valueNil(false, root)), "C25.live/add-guard/"+fnName(topFn(f)), p.Pos(cs.Instr.Pos()),
+			elem := c25Key{root: c25CanonRoot(cs.Args()[1])}
+			c.Check(c25GuardedKey(m.ip, cs.Instr, elem, elemNil(false)), "C25.live/add-guard/"+fnName(topFn(f)), p.Pos(cs.Instr.Pos()),
 				m.live.Name()+".Add("+path(cs.Args()[1])+") only when the same element's Value != nil",
 				m.live.Name()+".Add("+path(cs.Args()[1])+") is reachable without the element's Value being non-nil: a deleted key would be recorded as live")
 		}
 		for _, cs := range m.callsOnField(f, m.live, "Discard") {
 			nDisc++
-			root := c25CanonRoot(cs.Args()[1])
-			c.Check(guardedCut(cs.Instr, m.valueNil(true, root)), "C25.live/discard-guard/"+fnName(topFn(f)), p.Pos(cs.Instr.Pos()),
+			elem := c25Key{root: c25CanonRoot(cs.Args()[1])}
+			c.Check(c25GuardedKey(m.ip, cs.Instr, elem, elemNil(true)), "C25.live/discard-guard/"+fnName(topFn(f)), p.Pos(cs.Instr.Pos()),
 				m.live.Name()+".Discard("+path(cs.Args()[1])+") only when the same element's Value == nil",
 				m.live.Name()+".Discard("+path(cs.Args()[1])+") is reachable without the element's Value being nil: a key that downstream holds would be forgotten")
 		}
 	}
+	if nAdd == 0 || nDisc == 0 {
+		c.Lost("%s.Add (%d) / Discard (%d) sites", m.live.Name(), nAdd, nDisc)
+	}
+}
+
+func (m *c25Model) liveDequeueAndDrop() {
+	c, p := m.c, m.p
 	// (b) removal from the pending map at dequeue is followed by the live-set update
 	//     before the next iteration, the return, or any point where the lock may be released
 	// (c) elsewhere a pending entry is dropped only for deletions of non-live keys
@@ -771,23 +870,24 @@ func (m *c25Model) liveRules() {
 		})
 		for _, del := range dels {
 			kp := path(del.Call.Args[1])
-			if topFn(f) == m.fnDequeue {
+			// a dequeue site: the key belongs to the element taken off the front of the list
+			// (followed through helper parameters), or the delete sits in the dequeue function
+			if topFn(f) == m.dequeueFn() || m.fromFront(del.Call.Args[1], 0) {
 				nDeq++
-				hit := c25Reach(f, del,
-					func(in ssa.Instruction) bool {
-						if _, ok := in.(*ssa.Return); ok {
-							return true
-						}
-						return in == ssa.Instruction(del) || m.L.Releases(in)
-					},
-					func(in ssa.Instruction) bool {
+				key0 := c25KeyOf(del.Call.Args[1])
+				hit := c25ReachKey(m.ip, del, key0,
+					func(in ssa.Instruction) bool { return m.L.Releases(in) },
+					func(in ssa.Instruction, k c25Key) bool {
 						ci, ok := in.(*ssa.Call)
 						if !ok {
 							return false
 						}
-						cs := CallSite{ci, calleeOf(ci.Common()), f}
-						return (c25CallOnField(cs, m.live, "Add") || c25CallOnField(cs, m.live, "Discard")) && path(cs.Args()[1]) == kp
-					}, nil)
+						cs := CallSite{ci, calleeOf(ci.Common()), in.Parent()}
+						if !(c25CallOnField(cs, m.live, "Add") || c25CallOnField(cs, m.live, "Discard")) {
+							return false
+						}
+						return k.matches(cs.Args()[1]) || (in.Parent() == del.Parent() && path(cs.Args()[1]) == kp)
+					})
 				key := "C25.live/dequeue-paired/" + fnName(topFn(f))
 				if hit == nil {
 					c.Ok(key, p.Pos(del.Pos()), "after delete(%s, %s) every path updates %s for that key before iterating, returning or releasing the lock", m.pmap.Name(), kp, m.live.Name())
@@ -804,50 +904,68 @@ func (m *c25Model) liveRules() {
 			if len(cs.Args()) < 2 {
 				continue
 			}
-			fromLookup, fromFront := false, false
-			for _, o := range origins(cs.Args()[1], nil) {
-				switch x := o.V.(type) {
-				case *ssa.Lookup:
-					fromLookup = fromLookup || fieldVar(x.X) == m.pmap
-				case *ssa.Call:
-					fromFront = fromFront || c25CallOnField(CallSite{x, calleeOf(x.Common()), f}, m.plist, "Front")
-				}
-			}
-			switch {
-			case fromFront && !fromLookup:
-				// the dequeue itself
-			case fromLookup && !fromFront:
-				nDrop++
+			host := topFn(f)
+			// classify the removed element by where it comes from: the front of the list (the
+			// dequeue), a lookup in the pending map (an outright drop), or — in a helper — a
+			// parameter, in which case each call site stands for the removal.
+			var classify func(v ssa.Value, at ssa.Instruction, depth int)
+			classify = func(v ssa.Value, at ssa.Instruction, depth int) {
+				fromLookup, fromFront := false, false
 				var keyV ssa.Value
-				for _, o := range origins(cs.Args()[1], nil) {
-					if lk, ok := o.V.(*ssa.Lookup); ok {
-						keyV = lk.Index
+				var params []*ssa.Parameter
+				for _, o := range origins(v, nil) {
+					switch x := o.V.(type) {
+					case *ssa.Lookup:
+						if fieldVar(x.X) == m.pmap {
+							fromLookup = true
+							keyV = x.Index
+						}
+					case *ssa.Call:
+						fromFront = fromFront || c25CallOnField(CallSite{x, calleeOf(x.Common()), x.Parent()}, m.plist, "Front")
+					case *ssa.Parameter:
+						params = append(params, x)
 					}
 				}
-				m.dropGuards(f, cs.Instr, "remove", keyV)
-			default:
-				c.Undecided("C25.live/drop/"+fnName(topFn(f))+"/remove", p.Pos(cs.Instr.Pos()), "cannot tell where the removed element %s comes from", path(cs.Args()[1]))
+				switch {
+				case fromFront && !fromLookup && len(params) == 0:
+					// the dequeue itself
+					return
+				case fromLookup && !fromFront && len(params) == 0:
+					nDrop++
+					m.dropGuards(host, at, "remove", keyV)
+					return
+				case len(params) == 1 && !fromLookup && !fromFront && depth < 4:
+					if sites, ok := m.ip.helperSites(params[0].Parent()); ok {
+						if args, ok := m.ip.paramArgs(params[0]); ok && len(args) == len(sites) {
+							for i, s := range sites {
+								classify(args[i], s, depth+1)
+							}
+							return
+						}
+					}
+				}
+				c.Undecided("C25.live/drop/"+fnName(host)+"/remove", p.Pos(at.Pos()), "cannot tell where the removed element %s comes from", path(v))
 			}
+			classify(cs.Args()[1], cs.Instr, 0)
 		}
 	}
 	if nDeq == 0 {
-		c.Lost("no delete(%s, …) in %s", m.pmap.Name(), fnName(m.fnDequeue))
+		c.Lost("no delete(%s, …) of the dequeued element's key in %s or a helper it hands the element to", m.pmap.Name(), fnName(m.dequeueFn()))
 	}
 	if nDrop < 2 {
 		c.Lost("expected the enqueue path to drop a pending entry (delete from %s and %s.Remove), found %d site(s)", m.pmap.Name(), m.plist.Name(), nDrop)
 	}
+}
 
-	if nAdd == 0 || nDisc == 0 {
-		c.Lost("%s.Add (%d) / Discard (%d) sites", m.live.Name(), nAdd, nDisc)
-	}
-
+func (m *c25Model) liveType() {
+	c, p := m.c, m.p
 	// (d) UpdateType recalculated from live-set membership
 	nType := 0
 	for _, f := range m.all {
 		for _, st := range c25StoresToFieldVar(f, m.updType) {
 			cv, isConst := constOf(st.Val)
 			if !isConst {
-				if topFn(f) == m.fnQueue {
+				if topFn(f) == m.queueFn() {
 					c.Undecided("C25.live/type/"+fnName(topFn(f))+"/dynamic", p.Pos(st.Pos()), "UpdateType assigned a non-constant %s", path(st.Val))
 				}
 				continue
@@ -879,10 +997,14 @@ func (m *c25Model) liveRules() {
 		c.Lost("constant stores of KVNew/KVUpdated into api.Update.UpdateType: %d", nType)
 	}
 
+}
+
+func (m *c25Model) liveTypeRecalc() {
+	c, p := m.c, m.p
 	// (e) every non-nil value that goes onto the queue has had its type recalculated
 	nLoads := 0
 	{
-		f := m.fnQueue
+		f := m.queueFn()
 		var bad ssa.Instruction
 		for _, b := range f.Blocks {
 			for _, in := range b.Instrs {
@@ -940,21 +1062,31 @@ func (m *c25Model) isQueueKey(f *ssa.Function, v ssa.Value) bool {
 	return found || !any
 }
 
-// dropGuards checks one "drop the pending entry outright" site.
-func (m *c25Model) dropGuards(f *ssa.Function, at ssa.Instruction, what string, keyV ssa.Value) {
+// dropGuards checks one "drop the pending entry outright" site; hostFn is the function the
+// drop is written in (at may be a call site of it, standing for the drop in a caller).
+func (m *c25Model) dropGuards(hostFn *ssa.Function, at ssa.Instruction, what string, keyV ssa.Value) {
 	c, p := m.c, m.p
-	base := "C25.live/drop/" + fnName(topFn(f)) + "/" + what
+	base := "C25.live/drop/" + fnName(topFn(hostFn)) + "/" + what
 	site := p.Pos(at.Pos())
-	c.Check(guardedCut(at, m.valueNil(true, nil)), base+"/value-nil", site,
+	c.Check(m.ip.guarded(at, m.valueNil(true, nil)), base+"/value-nil", site,
 		"pending entry dropped only for a deletion (Value == nil)",
 		"a pending entry can be dropped for an update whose Value is not nil: the update is lost")
 	kp := ""
+	var key c25Key
 	if keyV != nil {
 		kp = path(keyV)
+		key = c25KeyOf(keyV)
 	}
-	c.Check(guardedCut(at, callCond(false, func(cs CallSite) bool {
-		return c25CallOnField(cs, m.live, "Contains") && len(cs.Args()) == 2 && (kp == "" || path(cs.Args()[1]) == kp)
-	})), base+"/not-live", site,
+	host := at.Parent()
+	notLive := func(k c25Key) EdgePred {
+		return callCond(false, func(cs CallSite) bool {
+			if !c25CallOnField(cs, m.live, "Contains") || len(cs.Args()) != 2 {
+				return false
+			}
+			return keyV == nil || k.matches(cs.Args()[1]) || (cs.Instr.Parent() == host && path(cs.Args()[1]) == kp)
+		})
+	}
+	c.Check(c25GuardedKey(m.ip, at, key, notLive), base+"/not-live", site,
 		"pending entry dropped only when !"+m.live.Name()+".Contains("+kp+")",
 		"a pending entry can be dropped although downstream holds the key ("+m.live.Name()+".Contains not tested false): the deletion is never delivered and the resource stays stale")
 }
